@@ -317,8 +317,9 @@ fn eval(rules: &[String], url: &str, src: &str, ty: &str, mode: usize, batch: us
             if f.is_removeparam() && !f.is_badfilter() {
                 let mut rm = RegexManager::default();
                 if f.matches(&req, &mut rm) {
-                    if let Some(n) = &f.modifier_option {
-                        names.push(n.clone());
+                    // the parameter name as written in the rule, not as stored by the parser
+                    if let Some(n) = option_value(line, &["removeparam"]) {
+                        names.push(n);
                     }
                 }
             }
